@@ -255,6 +255,41 @@ var scopeFunctions = map[string]function.Function{
 		Type:   function.StaticReturnType(cty.Bool),
 		Impl:   func(args []cty.Value, _ cty.Type) (cty.Value, error) { return cty.True, nil },
 	}),
+	// functions that blame one of their arguments: an index into the argument list as the function saw it, which
+	// after a `...` expansion is not the list as written (an empty expansion leaves fewer arguments than were written)
+	"first": function.New(&function.Spec{
+		VarParam: &function.Parameter{Name: "v", Type: cty.DynamicPseudoType, AllowNull: true, AllowUnknown: true, AllowDynamicType: true, AllowMarked: true},
+		Type:     function.StaticReturnType(cty.DynamicPseudoType),
+		Impl: func(args []cty.Value, _ cty.Type) (cty.Value, error) {
+			if len(args) == 0 {
+				return cty.NilVal, function.NewArgErrorf(0, "at least one value is required")
+			}
+			return args[0], nil
+		},
+	}),
+	"firstn": function.New(&function.Spec{
+		Params:   []function.Parameter{{Name: "n", Type: cty.DynamicPseudoType, AllowNull: true, AllowUnknown: true, AllowDynamicType: true, AllowMarked: true}},
+		VarParam: &function.Parameter{Name: "v", Type: cty.DynamicPseudoType, AllowNull: true, AllowUnknown: true, AllowDynamicType: true, AllowMarked: true},
+		Type:     function.StaticReturnType(cty.DynamicPseudoType),
+		Impl: func(args []cty.Value, _ cty.Type) (cty.Value, error) {
+			if len(args) < 2 {
+				return cty.NilVal, function.NewArgErrorf(1, "at least one value is required after the first")
+			}
+			return args[1], nil
+		},
+	}),
+	"blame": function.New(&function.Spec{
+		VarParam: &function.Parameter{Name: "v", Type: cty.DynamicPseudoType, AllowNull: true, AllowUnknown: true, AllowDynamicType: true, AllowMarked: true},
+		Type:     function.StaticReturnType(cty.DynamicPseudoType),
+		Impl: func(args []cty.Value, _ cty.Type) (cty.Value, error) {
+			// blames the last argument it received, or one past the end when it received none
+			i := len(args) - 1
+			if i < 0 {
+				i = 0
+			}
+			return cty.NilVal, function.NewArgErrorf(i, "blamed")
+		},
+	}),
 	"fail": function.New(&function.Spec{
 		Params: []function.Parameter{},
 		Type:   function.StaticReturnType(cty.String),
